@@ -570,7 +570,7 @@ vreverse_edges(self.get_all_edges());
         // [C06.reverse.guard]
         !self.specs.directed ==> is_err_kind(r, ErrorKind::WrongMethod),
         // [C06.reverse.rebuilds_from_same_nodes_and_flipped_edges]
-        self.specs.directed ==> nfne_rel(node_names_of(self.nodes_vec@), Seq::new(self.all_edges_seq().len(), |i: int| spec_reversed(self.all_edges_seq()[i])), self.specs, r),
+        self.specs.directed ==> reverse_outcome(*self, r),
         self.specs.directed && r.is_ok() ==> r.unwrap().wf_nodes() && r.unwrap().wf_estore() && r.unwrap().wf_rows() && r.unwrap().specs == self.specs,
 //@ before Graph::new_from_nodes_and_edges(new_nodes, new_edges, self.specs.clone())
         proof {
